@@ -232,3 +232,86 @@ func ModelParseFloatOK(s string) bool {
 	}
 	return i == n
 }
+
+// ---- stand-ins for the assembly-backed leaves of internal/bytealg: the
+// executor descends into the Go bodies of strings/bytes functions it has no
+// dedicated model for and ends here (plain byte loops; a comparison with a
+// symbolic byte forks the path).
+
+func ExtIndexByteString(s string, c byte) int {
+	for i := 0; i < len(s); i++ {
+		if s[i] == c {
+			return i
+		}
+	}
+	return -1
+}
+
+func ExtIndexByte(b []byte, c byte) int {
+	for i := 0; i < len(b); i++ {
+		if b[i] == c {
+			return i
+		}
+	}
+	return -1
+}
+
+func ExtCountString(s string, c byte) int {
+	n := 0
+	for i := 0; i < len(s); i++ {
+		if s[i] == c {
+			n++
+		}
+	}
+	return n
+}
+
+func ExtCount(b []byte, c byte) int {
+	n := 0
+	for i := 0; i < len(b); i++ {
+		if b[i] == c {
+			n++
+		}
+	}
+	return n
+}
+
+func ExtIndexString(a, b string) int {
+	for i := 0; i+len(b) <= len(a); i++ {
+		if a[i:i+len(b)] == b {
+			return i
+		}
+	}
+	return -1
+}
+
+func ExtIndex(a, b []byte) int {
+	for i := 0; i+len(b) <= len(a); i++ {
+		if string(a[i:i+len(b)]) == string(b) {
+			return i
+		}
+	}
+	return -1
+}
+
+func ExtCompare(a, b []byte) int {
+	n := len(a)
+	if len(b) < n {
+		n = len(b)
+	}
+	for i := 0; i < n; i++ {
+		if a[i] != b[i] {
+			if a[i] < b[i] {
+				return -1
+			}
+			return 1
+		}
+	}
+	if len(a) < len(b) {
+		return -1
+	}
+	if len(a) > len(b) {
+		return 1
+	}
+	return 0
+}
